@@ -31,7 +31,11 @@ RULE = ('A case is a batch of 2-4 graph-lab hypernym digraphs on 2-7 synsets (DA
         'return weight per listed synset, 0 for the others, totals = sum of the ROOT lines, with '
         'the default id formatter and with a custom get_synset_id. Non-trivial graph: a corpus '
         'word one of whose synsets has two hypernym paths converging, or an ambiguous corpus '
-        'word; the class histogram counts graphs, not batches.')
+        'word; the class histogram counts graphs, not batches. Sub interlingual: a sparse '
+        'lexicon (one word per synset) whose taxonomy comes from expand lexicons, with a constructed '
+        'chain of two concepts it lacks and a concept it has above them: compute() must not fail, '
+        'placeholders carry no weight, every real synset gets smoothing + the counts of the words '
+        'at or below it on the ILI-mapped reference graph.')
 ASSUMPTIONS = [
     'hypernym edges stay inside one information-content class (n, v, a+s, r): cross-class edges '
     'are outside the documented use of wn.ic',
@@ -383,7 +387,105 @@ def _cases(tier):
     return G.batch_of(_graph(tier), (1, 3, 2, 4, 3, 4))
 
 
+# ---------------------------------------------------------------------------
+# interlingual: the taxonomy of a sparse lexicon comes from expand lexicons; concepts it
+# lacks are placeholders that carry no weight but pass it on
+
+@st.composite
+def _il_cases(draw):
+    from . import c13
+    case = draw(c13._il_drawn())
+    L = case['lexicons']['L:1']
+    L['entries'] = [{'id': f'L-e{i}', 'meta': None,
+                     'lemma': {'writtenForm': f'w{i}', 'partOfSpeech': 'n'},
+                     'senses': [{'id': f'L-e{i}-s', 'synset': ss['id'], 'meta': None}]}
+                    for i, ss in enumerate(L['synsets'])]
+    case['selection'] = 'L:1'
+    n = len(L['synsets'])
+    E1 = case['lexicons']['E:1']
+    g2 = next((x for x in E1['synsets'] if x['ili'] == 'iy'), None)
+    if g2 is not None and n >= 2 and draw(st.integers(0, 3)) > 0:
+        # a concept L has above the two it lacks: the weight must arrive there
+        E1['synsets'].append({'id': 'E1-top', 'ili': 'itop', 'partOfSpeech': 'n', 'meta': None})
+        g2.setdefault('relations', []).append(
+            {'target': 'E1-top', 'relType': 'hypernym', 'meta': None})
+        L['synsets'][-1]['ili'] = 'itop'
+    case['corpus'] = draw(st.lists(st.sampled_from([f'w{i}' for i in range(n)] + ['zzz', 'w0']),
+                                   min_size=1, max_size=6))
+    case['smoothing'] = draw(st.sampled_from([0.0, 1.0, 0.5]))
+    return case
+
+
+def _il_reach(case):
+    from . import c11, c12
+    from ..refdb import RefDB
+    ref = RefDB()
+    for spec in case['order']:
+        ref.add_resource({'lmf_version': '1.1', 'lexicons': [case['lexicons'][spec]]})
+    view = c12._view(ref, case)
+    return {r.key.partition('|')[2]: c11._x_reach(view, r, ('hypernym', 'instance_hypernym'))
+            for r in view.synsets()}
+
+
+def _il_classify(case):
+    reach = _il_reach(case)
+    L = case['lexicons']['L:1']
+    tags = set()
+    for tok in set(case['corpus']):
+        if tok == 'zzz':
+            continue
+        anc = reach[L['synsets'][int(tok[1:])]['id']]
+        ph = [k for k in anc if k.startswith('*INFERRED*')]
+        real = [k for k in anc if not k.startswith('*INFERRED*')]
+        if ph:
+            tags.add('corpus-word-below-placeholder')
+        if ph and real:
+            tags.add('real-ancestor-beyond-placeholder')
+    return bool(tags), sorted(tags)
+
+
+def _il_oracle(case):
+    import wn
+    import wn.ic
+    from . import c12
+    from .. import observe
+    c12._setup(case)
+    reach = _il_reach(case)
+    w, _warns = observe.make_wordnet(case['selection'], None, case['expand'])
+    L = case['lexicons']['L:1']
+    ids = [ss['id'] for ss in L['synsets']]
+    sm = case['smoothing']
+    st_, got = G.guarded(wn.ic.compute, case['corpus'], w, distribute_weight=False, smoothing=sm)
+    if st_ != 'ok':
+        if st_ == 'wn.Error':
+            return [Disc('interlingual:compute-raises', 'compute()', 'weights', got)]
+        return [Disc(f'exception:{got[0]}', f'compute() in {got[1]}', 'no exception', got[2])]
+    counts = Counter(t for t in case['corpus'] if t != 'zzz')
+    exp = {i: sm for i in ids}
+    for tok, c in counts.items():
+        sid = ids[int(tok[1:])]
+        for k in {f'L:1|{sid}'} | set(reach[sid]):
+            if not k.startswith('*INFERRED*'):
+                exp[k.partition('|')[2]] += c
+    out = []
+    g = dict(got.get('n', {}))
+    total = g.pop(None, None)
+    if not _close(total, sm + sum(counts.values())):
+        out.append(Disc('interlingual:total-differs', "freq['n'][None]",
+                        sm + sum(counts.values()), total))
+    if sorted(g) != sorted(exp):
+        out.append(Disc('interlingual:weight-keys-differ', "freq['n']", sorted(exp), sorted(g)))
+    else:
+        for i in ids:
+            if not _close(g[i], exp[i]):
+                out.append(Disc('interlingual:weight-differs', f"freq['n'][{i}]", exp[i], g[i]))
+    return out[:_MAX_DISCS]
+
+
 SUBS = [
+    Sub('interlingual', _il_oracle, _il_classify, strategy=lambda tier: _il_cases(),
+        budget={'quick': 60, 'thorough': 1000}, sample=lambda c: c, case_timeout=120,
+        require_tags=('real-ancestor-beyond-placeholder',)),
     Sub('compute-and-load', oracle, _classify, strategy=_cases,
         budget={'quick': 250, 'thorough': 1000}, sample=_sample, purge_every=10,
         case_timeout=600,
